@@ -562,7 +562,7 @@ func (se *SessionExecutor) recycleBackendConn(pc backend.PooledConnect) {
 	}
 
 	if pc.IsClosed() {
-		se.recycleTx()
+		se.recycleTx(pc)
 		pc.Recycle()
 		return
 	}
@@ -589,7 +589,7 @@ func (se *SessionExecutor) recycleContinueConn(pc backend.PooledConnect) {
 		return
 	}
 	if pc.IsClosed() {
-		se.recycleTx()
+		se.recycleTx(pc)
 		pc.Recycle()
 		return
 	}
@@ -1498,13 +1498,19 @@ func (se *SessionExecutor) handleSavepoint(stmt *ast.SavepointStmt) (err error) 
 	return
 }
 
-func (se *SessionExecutor) recycleTx() {
+// recycleTx forgets the closed connection pc, which its caller recycles; the other
+// connections of the transaction stay owned by it until commit / rollback / session close.
+func (se *SessionExecutor) recycleTx(pc backend.PooledConnect) {
 	if !se.isInTransaction() {
 		return
 	}
 	se.txLock.Lock()
 	defer se.txLock.Unlock()
-	se.txConns = make(map[string]backend.PooledConnect)
+	for sliceName, txConn := range se.txConns {
+		if txConn == pc {
+			delete(se.txConns, sliceName)
+		}
+	}
 }
 
 // handleKQuit close backend connection and recycle, only called when client exit
